@@ -1,5 +1,6 @@
 import Driver.Util
 import ESV.Macro.Order
+import ESV.Macro.Pinned
 import ESV.Macro.Import
 open Lean Drv ESV.Macro
 
@@ -26,11 +27,13 @@ def handle (op : String) (j : Json) : R Json := do
     let base := [("vs", jList Json.str g.vs),
       ("es", jList (fun (e : String × String) => Json.arr #[.str e.1, .str e.2]) g.es)]
     match visitStart inp with
-    | .error v => pure (Json.mkObj (base ++ [("cycle", .str v)]))
+    | .error (.cycle v) => pure (Json.mkObj (base ++ [("cycle", .str v)]))
+    | .error .stopIteration => pure (Json.mkObj (base ++ [("stop_iteration", .bool true)]))
     | .ok order =>
       let comp := match compileMacros inp with
         | .ok known => Json.mkObj [("ok", jList Json.str known)]
         | .error (.cycle v) => Json.mkObj [("err", .str "SsbCompilerError"), ("cycle", .str v)]
+        | .error .stopIteration => Json.mkObj [("err", .str "StopIteration")]
         | .error (.valueError n) => Json.mkObj [("err", .str "ValueError"), ("name", .str n)]
         | .error (.notFound n) =>
           let cands := match sortDefs order inp.defs with
@@ -39,8 +42,9 @@ def handle (op : String) (j : Json) : R Json := do
               | none => [n]
             | .error _ => [n]
           Json.mkObj [("err", .str "SsbCompilerError"), ("name", .str n), ("candidates", jList Json.str cands)]
-      pure (Json.mkObj (base ++ [("order", jList Json.str order), ("roots", jList Json.str g.roots),
-        ("compile", comp), ("guard", .bool (guard inp)), ("topo", jOpt (jList Json.str) (topoOrder inp))]))
+      -- "pinned_order": what the ordering of the pinned tree (ESV/Macro/Pinned.lean) gives, for information only
+      pure (Json.mkObj (base ++ [("order", jList Json.str order), ("compile", comp),
+        ("pinned_order", jList Json.str g.resolutionOrderPinned)]))
   | "macro.resolve" =>
     let ex ← (← asArr (← fld j "exists")).mapM asStr
     let exc := ex.map compsOf
